@@ -27,8 +27,22 @@ FIXED_RULES = [('r1', {'class': 'k1', 'account': 'ka*'}), ('r2', {'class': 'k2'}
 FIXED_SERVICES = [('s1.svc', 'login'), ('s2.svc', 'dronecheck')]
 
 
+# third universe: the service table varies under rules that NAME services (what a rule remembers about a service must not outlive the service);
+# here a client is also run to its verdict before every reload, so that whatever the modules cache per rule or per service is warm when the table changes
+MIXED_RULES = [('r1', {'class': 'k1', 'xreply_ok': 's1.svc'}), ('r2', {'class': 'k2', 'xreply_ok': 's2.svc'}), ('r3', {'class': 'k3'})]
+MIXED_PROBES = ('ok-ka1', 'no-s1', 'nopass')
+
+
 def tables_universe():
-    return {'services': list(itertools.product(STYPES, repeat=2)) + [ABSENT], 'rules': list(itertools.product(RKINDS, R2KINDS)) + [ABSENT]}
+    return {'services': list(itertools.product(STYPES, repeat=2)) + [ABSENT], 'rules': list(itertools.product(RKINDS, R2KINDS)) + [ABSENT],
+            'mixed': list(itertools.product([None, 'login'], [None, 'login', 'dronecheck']))}
+
+
+def exercise(serial):
+    """a client (id 5) run to its verdict: every configured service answers OK"""
+    tag = '5_%x' % serial
+    return ['5 C 10.0.0.5 5555 10.9.9.9 6667', '5 N host5.example.net', '5 u ident5', '5 n Nick5', '5 U user5 :Real Name', '5 P :+x ka5 pw',
+            '-1 X s1.svc %s :OK ka5:7' % tag, '-1 X s2.svc %s :OK' % tag, '5 H', '5 D']
 
 
 def svc_table(t):
@@ -43,6 +57,8 @@ def conf_for(moddir, universe, t, modules=None, logs=None):
         kw['modules'] = modules
     if logs:
         kw['logs'] = logs
+    if universe == 'mixed':
+        return e1.conf_text(moddir, services=svc_table(t), timeout=0, rules=MIXED_RULES, **kw)
     if universe == 'services':
         text = e1.conf_text(moddir, services=svc_table(t), timeout=0, rules=FIXED_RULES, **kw)
         return text.replace('iauth_xquery {\n}\n', '') if t == ABSENT else text
@@ -86,10 +102,12 @@ def norm(step_lines):
 _G = {}
 
 
-def run_probes(srv, prefix_events, serial):
+def run_probes(srv, prefix_events, serial, only=None):
     rec = {}
     died = None
     for name, lines in probes(serial).items():
+        if only and name not in only:
+            continue
         evs = list(prefix_events) + [('L', l + '\n') for l in lines]
         res, status, err, ex = srv.trace(evs)
         if status != 'ok' or len(res) != len(evs):
@@ -99,6 +117,17 @@ def run_probes(srv, prefix_events, serial):
         steps = res[len(prefix_events):]
         rec[name] = tuple(norm(r.out) for r in steps)
     return rec, died
+
+
+def seq_events(srv, universe, pre, serial, seq):
+    """events of one reload sequence and the serial the probe client will get; in the 'mixed' universe a client is run to its verdict before every reload"""
+    evs = list(pre)
+    for i in seq:
+        if universe == 'mixed':
+            evs += [('L', l + '\n') for l in exercise(serial)]
+            serial += 1
+        evs.append(('R', srv.path('t%d.conf' % i)))
+    return evs, serial
 
 
 def _group(item):
@@ -118,8 +147,8 @@ def _group(item):
         serial = 2 if waiter else 1
         for n in range(1, depth + 1):
             for seq in itertools.product(range(len(tables)), repeat=n):
-                evs = pre + [('R', srv.path('t%d.conf' % i)) for i in seq]
-                rec, died = run_probes(srv, evs, serial)
+                evs, ser = seq_events(srv, universe, pre, serial, seq)
+                rec, died = run_probes(srv, evs, ser, MIXED_PROBES if universe == 'mixed' else None)
                 out.append((seq, rec, died))
     finally:
         srv.close()
@@ -133,7 +162,7 @@ def _fresh(item):
         moddir = os.path.join(b, 'mods-wrapped')
         srv = e1.Server(conf_for(moddir, universe, _G['tables'][universe][ti]), builddir=b)
         try:
-            rec, died = run_probes(srv, [], 1)
+            rec, died = run_probes(srv, [], 1, MIXED_PROBES if universe == 'mixed' else None)
         finally:
             srv.close()
         return (universe, ti, rec, died)
@@ -155,7 +184,7 @@ def edit_kind(universe, prev, last):
 def tstr(universe, t):
     if t == ABSENT:
         return '<no section in the file>'
-    if universe == 'services':
+    if universe in ('services', 'mixed'):
         return '{%s}' % ', '.join('%s %s' % x for x in svc_table(t))
     return '{%s}' % ', '.join('%s %s' % (n, ' '.join('%s=%s' % kv for kv in sorted(r.items()))) for n, r in rule_table(t))
 
@@ -229,14 +258,15 @@ def main(tier):
     nseq = ntrace = 0
     mism = 0
     with mp.get_context('fork').Pool(16) as pool:
-        for r in pool.imap_unordered(_fresh, [(u, i) for u in ('services', 'rules') for i in range(len(_G['tables'][u]))]):
+        for r in pool.imap_unordered(_fresh, [(u, i) for u in ('services', 'rules', 'mixed') for i in range(len(_G['tables'][u]))]):
             if isinstance(r, dict):
                 raise common.HarnessError(r['harness_error'])
             u, i, rec, died = r
             if died:
                 raise common.HarnessError('fresh daemon died on a probe: %s' % died)
             fresh[(u, i)] = rec
-        items = [(u, t0, depth, w) for u in ('services', 'rules') for w in (False, True) for t0 in range(len(_G['tables'][u]))]
+        items = [('mixed', t0, 3, w) for w in ((False,) if quick else (False, True)) for t0 in range(len(_G['tables']['mixed']))]
+        items += [(u, t0, depth, w) for u in ('services', 'rules') for w in (False, True) for t0 in range(len(_G['tables'][u]))]
         for g in pool.imap_unordered(_group, items):
             if 'harness_error' in g:
                 raise common.HarnessError(g['harness_error'])
@@ -252,7 +282,7 @@ def main(tier):
                 want = fresh[(u, seq[-1])]
                 prev = tables[seq[-2]] if len(seq) > 1 else tables[t0]
                 ek = edit_kind(u, prev, tables[seq[-1]])
-                hist = 'start %s%s | %s' % (tstr(u, tables[t0]), ' + waiting client' if w else '', ' | '.join('reload ' + tstr(u, tables[i]) for i in seq))
+                hist = 'start %s%s | %s' % (tstr(u, tables[t0]), ' + waiting client' if w else '', ' | '.join(('client run to its verdict, ' if u == 'mixed' else '') + 'reload ' + tstr(u, tables[i]) for i in seq))
                 if died:
                     run.violation('C17.died/' + u, 'the daemon died on a probe after %s: %s' % (hist, died), {'engine': 'E1', 'universe': u, 't0': t0, 'seq': list(seq), 'waiter': w}, dedup='died|' + u + ek)
                     continue
@@ -303,10 +333,10 @@ def replay(obj):
     moddir = os.path.join(b, 'mods-wrapped')
     files = {'t%d.conf' % i: conf_for(moddir, u, t) for i, t in enumerate(tables)}
     with e1.Server(conf_for(moddir, u, tables[r['t0']]), builddir=b, files=files) as srv:
-        pre = ([('L', l + '\n') for l in WAITER] if r.get('waiter') else []) + [('R', srv.path('t%d.conf' % i)) for i in r['seq']]
-        rec, died = run_probes(srv, pre, 2 if r.get('waiter') else 1)
+        pre, ser = seq_events(srv, u, [('L', l + '\n') for l in WAITER] if r.get('waiter') else [], 2 if r.get('waiter') else 1, r['seq'])
+        rec, died = run_probes(srv, pre, ser, MIXED_PROBES if u == 'mixed' else None)
     with e1.Server(conf_for(moddir, u, tables[r['seq'][-1]]), builddir=b) as srv:
-        want, _ = run_probes(srv, [], 1)
+        want, _ = run_probes(srv, [], 1, MIXED_PROBES if u == 'mixed' else None)
     bad = 0
     for p in want:
         if rec.get(p) != want[p]:
